@@ -691,6 +691,11 @@ def c19_special(pid, prop, tier, seed, b):
         c_ = infra.run_driver(V + '/bin/cppdriver', sub, need_root=need_root)
         for i, a, b_ in zip(idxs, g, c_):
             go_out[i], cpp_out[i] = a, b_
+    # the same pure inputs through the extracted Coq model: where the port agrees with the model, the
+    # theorems of C01-C04 / C08-C11 about the model speak about the port's answers on these inputs too
+    ml_out = [None] * len(cases)
+    for i, m_ in zip(other_idx, infra.run_driver(V + '/bin/mldriver', [lines[i] for i in other_idx])):
+        ml_out[i] = m_
     failures, impl_lines = [], []
     from registry import split_order
 
@@ -720,7 +725,8 @@ def c19_special(pid, prop, tier, seed, b):
             return (st,) + tuple(kv[x] for x in ('dir', 'base', 'ext', 'pad', 'zfill', 'hasfs', 'frange', 'string', 'len', 'start', 'end')) + \
                 (tuple(ps[1:-1]), kv['frame'] if kv['hasfs'] == '1' else '')
         return (st,)
-    for c, g, cc in zip(cases, go_out, cpp_out):
+    disagreements, n_model = [], 0
+    for c, g, cc, ml in zip(cases, go_out, cpp_out, ml_out):
         c['impl'] = g
         impl_lines.append(g)
         # only inputs in the shared domain: the Go side accepts, and the range denotes a frame
@@ -733,7 +739,17 @@ def c19_special(pid, prop, tier, seed, b):
             diff = [i for i, (x, y) in enumerate(zip(a, b_)) if x != y]
             failures.append((c, ['the C++ port answers differently (field %s): Go %s | C++ %s' % (diff[:2], str(a)[:300], str(b_)[:300])]))
             c['model'] = cc
-    return cases, impl_lines, failures, [], dict()
+        elif ml is not None:
+            try:
+                m_ = project(c, ml)
+            except Exception as e:                       # a field the model does not print
+                m_ = None
+            n_model += 1
+            if m_ is not None and m_ != b_:
+                diff = [i for i, (x, y) in enumerate(zip(m_, b_)) if x != y]
+                disagreements.append((c, ['the C++ port and the Coq model answer differently (field %s): model %s | C++ %s' % (diff[:2], str(m_)[:300], str(b_)[:300])]))
+                c['model'] = ml
+    return cases, impl_lines, failures, disagreements, dict(cpp_vs_model_cases=n_model)
 
 
 # ------------------------------------------------------------------ C20 handle tables
